@@ -433,6 +433,13 @@ func (b *baseScreen) LockRegion(x, y, width, height int, lock bool) {
 				cells.UnlockCell(i, j)
 			}
 		}
+		if !lock && width > 0 {
+			// a wide rune just left of the region could not be shown
+			// while its right half was locked; have it drawn again
+			if _, _, _, w := cells.GetContent(x-1, j); w > 1 {
+				cells.SetDirty(x-1, j, true)
+			}
+		}
 	}
 	b.Unlock()
 }
